@@ -12,7 +12,7 @@ import (
 func init() {
 	register(&propCheck{
 		id:   "C10",
-		pkgs: []string{"cue", "encoding/json", "internal/encoding/json", "pkg/encoding/json", "internal/encoding", "cue/literal"},
+		pkgs: []string{"cue", "encoding/json", "internal/encoding/json", "pkg/encoding/json", "internal/encoding", "cue/literal", "cue/scanner"},
 		run:  checkC10,
 		about: "C10 (JSON in and out agrees with the standard): decides (a) on the value->JSON path strings and object keys are turned into JSON text only by internal/encoding/json.Marshal (no HTML-escaping json.Marshal of string data, no Go-syntax quoting such as strconv.Quote), and every json.Encoder that can receive CUE data has SetEscapeHTML called before Encode; " +
 			"(b) Value.appendJSON handles every concrete kind and returns an error for unresolved/non-concrete values before any kind-specific bytes are produced; (c) encoding/json.extract returns an expression only if json.Valid accepted the bytes and (*Decoder).extract only after a successful Decode; " +
@@ -35,6 +35,7 @@ func checkC10(c *Ctx) {
 		"init|github.com/cockroachdb/apd/v3.(*Context).Mul":                                  "builds the table of multiplier constants",
 	})
 	c10NumberFinite(c)
+	c10ScannerRejectedRunes(c)
 	// (a) string producers on the appendJSON path
 	goQuoters := map[string]bool{"strconv.Quote": true, "strconv.AppendQuote": true, "strconv.QuoteToASCII": true, "strconv.AppendQuoteToASCII": true,
 		"strconv.QuoteToGraphic": true, "strconv.AppendQuoteToGraphic": true, "cue/literal.Form.Quote": true, "cue/literal.Form.Append": true,
@@ -476,4 +477,74 @@ func sortedKeys[V any](m map[int]V) []int {
 	}
 	sortInts(out)
 	return out
+}
+
+// c10ScannerRejectedRunes: the JSON decoders hand their input to the CUE
+// parser. The CUE scanner rejects two runes wherever they occur: NUL (never
+// valid in JSON either: control characters must be escaped) and U+FEFF after
+// the first byte — which is an ordinary character inside a JSON string. Every
+// ParseExpr call of encoding/json must therefore receive its bytes through a
+// helper that replaces the byte order mark by its escape.
+func c10ScannerRejectedRunes(c *Ctx) {
+	const rule = "decode.bom-escaped-before-cue-parser"
+	// the premise, read from the scanner: next() reports an error for r == bom && offset > 0
+	sf := c.fnOpt("cue/scanner", "(*Scanner).next")
+	premise := false
+	if sf != nil {
+		ast.Inspect(sf.Body, func(x ast.Node) bool {
+			if be, ok := x.(*ast.BinaryExpr); ok && be.Op == token.EQL && (exprString(be.Y) == "bom" || exprString(be.X) == "bom") {
+				premise = true
+			}
+			return true
+		})
+	}
+	if !premise {
+		c.check(rule, "premise", token.NoPos, true, "the CUE scanner no longer singles out the byte order mark; nothing to escape")
+		return
+	}
+	escapes := func(callee string) bool {
+		if !strings.HasPrefix(callee, "encoding/json.") {
+			return false
+		}
+		h := c.fnOpt("encoding/json", strings.TrimPrefix(callee, "encoding/json."))
+		if h == nil {
+			return false
+		}
+		raw, esc := false, false
+		ast.Inspect(h.Body, func(x ast.Node) bool {
+			if e, ok := x.(ast.Expr); ok {
+				if v, ok := constString(h.Info(), e); ok {
+					if v == "\uFEFF" {
+						raw = true
+					}
+					if strings.EqualFold(v, `\ufeff`) {
+						esc = true
+					}
+				}
+			}
+			return true
+		})
+		return raw && esc
+	}
+	n := 0
+	for _, f := range c.funcs(c.pkg("encoding/json")) {
+		info := f.Info()
+		k := 0
+		ast.Inspect(f.Body, func(x ast.Node) bool {
+			call, ok := x.(*ast.CallExpr)
+			if !ok || calleeName(info, call) != "cue/parser.ParseExpr" || len(call.Args) < 2 {
+				return true
+			}
+			k++
+			n++
+			ok2 := false
+			if arg, isCall := ast.Unparen(call.Args[1]).(*ast.CallExpr); isCall {
+				ok2 = escapes(calleeName(info, arg))
+			}
+			c.check(rule, fmt.Sprintf("%s#%d", f.Name, k), call.Pos(), ok2,
+				"the bytes handed to the CUE parser must come from a helper that replaces U+FEFF by its JSON escape: the CUE scanner rejects a byte order mark after the first byte, but inside a JSON string it is an ordinary character (valid JSON would be rejected)")
+			return true
+		})
+	}
+	c.expect(rule, 2)
 }
